@@ -58,7 +58,8 @@ Domain(ty, f) ==
     [] f = "hdrExtra"  -> IF Signed(ty) THEN BOOLEAN ELSE {FALSE}
     [] f = "crv"       -> IF Signed(ty) THEN {"allowed", "notAllowed"} ELSE {"allowed"}
     [] f = "nonce"     -> IF Signed(ty) THEN {"absent", "N", "Nminus", "Nplus", "badB64"} ELSE {"absent"}
-    [] f = "patch"     -> IF HasDelta(ty) THEN {"enabled", "disabled", "empty"} ELSE {"enabled"}
+    \* a disabled action alone, or before / after / between patches with an enabled action
+    [] f = "patch"     -> IF HasDelta(ty) THEN {"enabled", "disabled", "disabledFirst", "disabledLast", "disabledMiddle", "empty"} ELSE {"enabled"}
     [] f = "reveal"    -> IF Signed(ty) THEN {"match", "mismatch"} ELSE {"match"}
     [] f = "next"      -> (CASE ty = "U" -> {"fresh", "selfCommit", "selfCommitOtherAlg"}
                              [] ty = "R" -> {"fresh", "selfCommit", "selfCommitOtherAlg", "ucEqRc"}
